@@ -14,7 +14,9 @@ from .vc import Obligation, Session
 
 def path_hyps(path, extra=()):
     """everything known on a path: hypotheses (quantified facts, preconditions), path condition, extras"""
-    return list(path.hyps) + list(path.pc) + list(extra)
+    from . import ops
+
+    return list(path.hyps) + list(path.pc) + list(extra) + list(ops.STR_FACTS)
 
 
 def explore_checked(ses, oid, run, hyps, *, function=None, allowed_exc=(), timeout_ms=2000, max_paths=64,
